@@ -66,6 +66,13 @@ class Part:
     #: wall budget per shard in seconds (a budget hit truncates, it never fails)
     budget = {QUICK: 120.0, THOROUGH: 1500.0}
     exhaustive = False
+    #: coverage-guided fuzz part (atheris): check(case={"data": bytes}); runs in a subprocess, thorough tier only
+    fuzz = False
+    fuzz_runs = {QUICK: 0, THOROUGH: 300000}
+    fuzz_max_len = 2048
+
+    def seed_corpus(self) -> t.List[bytes]:
+        return []
 
     def strategy(self, tier: str) -> t.Any:  # hypothesis strategy of plain-data cases
         return None
@@ -204,6 +211,8 @@ def run_shard(prop_id: str, part_name: str, tier: str, seed: int, shard: int, ns
                     buckets[v.key] = (size, case, v.detail)
 
         sseed = shard_seed(seed, shard)
+        if part.fuzz:
+            return _run_fuzz_shard(prop_id, part, tier, seed, shard, t0)
         enum = part.enumerate(tier, shard, nshards)
         if enum is not None:
             for case in enum:
@@ -245,6 +254,54 @@ def run_shard(prop_id: str, part_name: str, tier: str, seed: int, shard: int, ns
         )
 
 
+def _run_fuzz_shard(prop_id: str, part: Part, tier: str, seed: int, shard: int, t0: float) -> ShardResult:
+    """One atheris campaign: empty corpus on even shards, seed corpus on odd shards."""
+    import json
+    import shutil
+    import subprocess
+    import tempfile
+
+    sseed = shard_seed(seed, shard)
+    work = tempfile.mkdtemp(prefix="vf-fuzz-")
+    try:
+        corpus = os.path.join(work, "corpus")
+        out = os.path.join(work, "out")
+        os.makedirs(corpus)
+        os.makedirs(out)
+        if shard % 2 == 1:
+            for i, b in enumerate(part.seed_corpus()):
+                with open(os.path.join(corpus, f"seed{i:03d}"), "wb") as fh:
+                    fh.write(b)
+        runs = part.fuzz_runs[tier]
+        cmd = [sys.executable, "-m", "vf.fuzz", prop_id, part.name, out, corpus, f"-runs={runs}", f"-seed={max(1, sseed)}",
+               f"-max_len={part.fuzz_max_len}", "-timeout=120", "-rss_limit_mb=4096", "-print_final_stats=0", "-verbosity=0"]
+        limit = part.budget[tier]
+        try:
+            proc = subprocess.run(cmd, capture_output=True, text=True, timeout=limit, cwd=work)
+            rc, err = proc.returncode, proc.stderr[-2000:]
+        except subprocess.TimeoutExpired:
+            rc, err = 0, "budget"
+        stats_path = os.path.join(out, "stats.json")
+        if not os.path.exists(stats_path):
+            return ShardResult(part.name, shard, sseed, 0, 0, {}, set(), {}, {}, [], [], time.monotonic() - t0,
+                               f"atheris campaign produced no statistics (rc={rc}): {err}")
+        with open(stats_path) as fh:
+            stats = json.load(fh)
+        buckets: t.Dict[str, t.Tuple[int, t.Any, str]] = {}
+        for name in os.listdir(os.path.join(out, "violations")):
+            with open(os.path.join(out, "violations", name)) as fh:
+                rec = jsonx.loads(fh.read())
+            buckets[rec["key"]] = (rec["size"], rec["case"], rec["detail"])
+        events = dict(stats["events"])
+        events[f"campaign:{'seeded' if shard % 2 == 1 else 'empty'}-corpus"] = 1
+        if rc not in (0,) and err != "budget":
+            events[f"campaign-exit-{rc}"] = 1
+        return ShardResult(part.name, shard, sseed, stats["evaluations"], 0, events, {bytes.fromhex(h) for h in stats["nt"]}, buckets,
+                           stats["counts"], stats["samples"], stats["nt_samples"], time.monotonic() - t0, None)
+    finally:
+        shutil.rmtree(work, ignore_errors=True)
+
+
 def shrink_bucket(
     prop_id: str, part_name: str, tier: str, sseed: int, key: str, fallback: t.Any, time_cap: float
 ) -> t.Any:
@@ -259,7 +316,7 @@ def shrink_bucket(
 
     prop = load_property(prop_id)
     part = prop.part(part_name)
-    if part.enumerate(tier, 0, 1) is not None:
+    if part.fuzz or part.enumerate(tier, 0, 1) is not None:
         return fallback, None
     t0 = time.monotonic()
     best: t.Dict[str, t.Any] = {"case": None, "repr": None, "detail": None}
@@ -338,6 +395,8 @@ def run_parts(prop: Property, tier: str, seed: int, only_part: t.Optional[str] =
         if only_part and part.name != only_part:
             continue
         n = part.shards[tier]
+        if part.fuzz and part.fuzz_runs[tier] <= 0:
+            continue
         for s_ in range(n):
             jobs.append((prop.id, part.name, tier, seed, s_, n))
     if not jobs:
